@@ -60,6 +60,17 @@ def parseOp (j : Json) : Except String Op := do
   | "mkFixed" => pure (.mkFixed (← getNat j "dim") (← parseKind (← getStr j "kind")) (← getRats j "xs")
       (← getSym j "u") (← getSym j "c"))
   | "mkFScalar" => pure (.mkFScalar (← getRat j "n") (← getInt j "num") (← getNat j "den") (← getSym j "u") (← getSym j "c"))
+  | "mkDerived" =>
+    let cls ← match (← getStr j "cls") with
+      | "scalar" => pure Cls.scalar | "array" => pure Cls.array | "fixed" => pure Cls.fixed
+      | c => throw s!"bad class {c}"
+    let arr ← getArr j "items"
+    let items ← arr.toList.mapM (fun (t : Json) => match t with
+      | .arr #[.str c, .str u, e] => match c.toNat?, u.toNat?, e.getInt? with
+        | some c, some u, .ok e => pure ((c, u, e) : Sym × Sym × Int)
+        | _, _, _ => throw "bad item"
+      | _ => throw "bad item")
+    pure (.mkDerived cls items (← getRat j "v") (← parseKind (← getStr j "kind")) (← getRats j "xs"))
   | "arith" => pure (.arith (← parseBin (← getStr j "f")) (← parseOperand j "a") (← parseOperand j "b"))
   | "eq" => pure (.eq (← getNat j "i") (← getNat j "j"))
   | "lt" => pure (.lt (← getNat j "i") (← getNat j "j"))
@@ -129,6 +140,7 @@ def opMag (s : St) : Op → Rat
   | .mkEmptyArray _ xs => maxL xs
   | .mkFixed _ _ xs .. => maxL xs
   | .mkFScalar n a b .. => maxR (absR n) (absR (mkRat a b))
+  | .mkDerived _ _ v _ xs => maxR (absR v) (maxL xs)
   | .mkArrayFrom i .. => magSnap (snap s i)
   | .arith _ a b => maxR (operandMag s a) (operandMag s b)
   | .eq i j => maxR (magSnap (snap s i)) (magSnap (snap s j))
